@@ -358,6 +358,11 @@ func parseAux(aux []byte) ([]sam.Aux, error) {
 					return nil, errors.New("bam: truncated aux array header")
 				}
 				length := binary.LittleEndian.Uint32(aux[i+4 : i+8])
+				switch aux[i+3] {
+				case 'c', 'C', 's', 'S', 'i', 'I', 'f':
+				default:
+					return nil, fmt.Errorf("bam: unrecognised array element type: %q", aux[i+3])
+				}
 				j = int(length)*jumps[aux[i+3]] + int(unsafe.Sizeof(length)) + 4
 				if j < 0 || i+j < 0 || i+j > len(aux) {
 					return nil, fmt.Errorf("bam: invalid array length for aux data: %d", length)
